@@ -356,7 +356,7 @@ fn span_cases(sink: &mut Sink, rng: &mut Rng, thorough: bool) {
     }
 }
 
-pub fn run(opts: &Opts) -> i32 {
+fn child_run(opts: &Opts) -> i32 {
     let mut sink = Sink::new(&opts.out);
     let mut rng = Rng::new(opts.seed);
     span_cases(&mut sink, &mut rng, opts.thorough());
@@ -391,8 +391,19 @@ pub fn run(opts: &Opts) -> i32 {
     for (k, text) in [
         "ret 999999999999999999999999999999999999999999999", "@[format(width(99999999999999999999))] ret 1",
         "@[import(99999999999999999999)] _", "codata | .a .b : _ end", "ret 1\n-/ garbage (((",
+        // a sealed type that is its own definition, then unrolled by a match
+        "begin\n  let VType = @(import(\"/repo/lib/std/builtin/intrinsic/vtype.zy\")) that\n  let Ret = @(import(\"/repo/lib/std/builtin/intrinsic/ret.zy\")) that\n  def A : VType = A that\n  let f = { fn (x : A) => match x | +K(_) => ret () end } that\n  ret ()\nend\n",
+        // a sealed definition inside a parameter annotation
+        "begin\n  let Ret = @(import(\"/repo/lib/std/builtin/intrinsic/ret.zy\")) that\n  let Unit = @(import(\"/repo/lib/std/builtin/intrinsic/unit.zy\")) that\n  def ! f (x : define T = Unit in T) : Ret Unit = ret x that\n  ret ()\nend\n",
     ].iter().enumerate() {
         inputs.push((format!("regression{k}"), scratch.join("r.zy"), text.to_string()));
+    }
+    // inference cycles: a variable unified with something built from itself, under every former
+    for (k, wrapped) in ["(x, x)", "(item = x)", "(item :: x)", "{ x }", "+K(x)", "(x : _)", "((x, x), x)", "(item = (x, x))", "(a = x, b = x)", "{ ret x }", "(+K(item = x))"].iter().enumerate() {
+        inputs.push((format!("cyclic{k}"), scratch.join("y.zy"), format!("fn x => x {wrapped}")));
+        inputs.push((format!("cyclic{k}"), scratch.join("y.zy"), format!("fn x => ! x {wrapped}")));
+        inputs.push((format!("cyclic{k}"), scratch.join("y.zy"), format!("begin let unwrap = fn {wrapped} => x that let twice = fn y => unwrap (unwrap y) that ret () end")));
+        inputs.push((format!("cyclic{k}"), scratch.join("y.zy"), format!("fix f => fn x => f {wrapped}")));
     }
     for i in 0..n {
         match i % 5 {
@@ -425,24 +436,43 @@ pub fn run(opts: &Opts) -> i32 {
     // watchdog: a case that takes longer than the limit is a hang
     let progress = Arc::new(AtomicU64::new(0));
     let current: Arc<Mutex<Vec<Option<(std::time::Instant, String)>>>> = Arc::new(Mutex::new(vec![None; n_threads()]));
-    let work = Arc::new(Mutex::new(inputs.into_iter().rev().collect::<Vec<_>>()));
+    // crash isolation (see `run`): indices to leave out, or the single index to run
+    let arg = |name: &str| opts.rest.iter().position(|a| a == name).and_then(|i| opts.rest.get(i + 1)).cloned();
+    let skip: std::collections::HashSet<usize> = arg("--skip").map(|s| s.split(',').filter_map(|x| x.parse().ok()).collect()).unwrap_or_default();
+    let only_index: Option<usize> = arg("--only-index").and_then(|s| s.parse().ok());
+    let indexed: Vec<(usize, (String, PathBuf, String))> = inputs
+        .into_iter()
+        .enumerate()
+        .filter(|(i, _)| !skip.contains(i) && only_index.map_or(true, |k| k == *i))
+        .collect();
+    if let (Some(_), Some((_, (_, _, text)))) = (only_index, indexed.first()) {
+        let _ = std::fs::write(opts.out.join("input.txt"), text);
+    }
+    let cur_dir = opts.out.join("current");
+    let _ = std::fs::create_dir_all(&cur_dir);
+    let work = Arc::new(Mutex::new(indexed.into_iter().rev().collect::<Vec<_>>()));
     let results: Arc<Mutex<Vec<(String, String, String, String)>>> = Arc::new(Mutex::new(Vec::new()));
     let done = Arc::new(std::sync::atomic::AtomicBool::new(false));
     let mut handles = Vec::new();
     for t in 0..n_threads() {
         let (work, results, current, progress) = (work.clone(), results.clone(), current.clone(), progress.clone());
-        handles.push(std::thread::Builder::new().stack_size(512 << 20).spawn(move || {
+        let cur_dir = cur_dir.clone();
+        // a modest stack: unbounded recursion must overflow it in seconds, not minutes
+        handles.push(std::thread::Builder::new().stack_size(64 << 20).spawn(move || {
             let mut session = CompilerSession::default();
             let mut count = 0u64;
             loop {
                 let next = work.lock().unwrap().pop();
-                let Some((stream, path, text)) = next else { break };
+                let Some((index, (stream, path, text))) = next else { break };
+                // what this thread is about to run, for the supervisor should the process die
+                let _ = std::fs::write(cur_dir.join(format!("t{t}")), index.to_string());
                 current.lock().unwrap()[t] = Some((std::time::Instant::now(), text.clone()));
                 count += 1;
                 if count % 300 == 0 {
                     session = CompilerSession::default();
                 }
                 let (class, detail) = front_end(&mut session, &path, &text);
+                let _ = std::fs::write(cur_dir.join(format!("t{t}")), "-");
                 current.lock().unwrap()[t] = None;
                 progress.fetch_add(1, Ordering::Relaxed);
                 if class == "PANIC" || class == "BADLOC" {
@@ -507,6 +537,94 @@ pub fn run(opts: &Opts) -> i32 {
     sink.finish();
     if hang.is_some() {
         std::process::exit(0);
+    }
+    0
+}
+
+
+/// The search runs in a child process: a stack overflow or an abort kills the process, not a
+/// thread, and cannot be caught. When the child dies the supervisor reads which inputs its threads
+/// were running, confirms each suspect alone in its own child, reports the confirmed ones as
+/// violations with the input, and runs the search again without the suspects.
+pub fn run(opts: &Opts) -> i32 {
+    if opts.rest.iter().any(|a| a == "--child") {
+        return child_run(opts);
+    }
+    let exe = std::env::current_exe().expect("own path");
+    let base = |extra: &[String]| {
+        let mut c = std::process::Command::new(&exe);
+        c.arg("c10").arg("--tier").arg(if opts.thorough() { "thorough" } else { "quick" }).arg("--seed").arg(opts.seed.to_string());
+        c.arg("--out").arg(&opts.out).arg("--child");
+        c.args(extra);
+        c
+    };
+    let mut skip: Vec<usize> = Vec::new();
+    let mut crashers: Vec<(usize, String, String)> = Vec::new();
+    let mut unconfirmed = 0u64;
+    for _round in 0..6 {
+        let _ = std::fs::remove_dir_all(opts.out.join("current"));
+        let mut extra: Vec<String> = Vec::new();
+        if !skip.is_empty() {
+            extra.push("--skip".into());
+            extra.push(skip.iter().map(|i| i.to_string()).collect::<Vec<_>>().join(","));
+        }
+        let status = base(&extra).status().expect("spawn child");
+        if status.success() {
+            break;
+        }
+        // which inputs were being run
+        let mut suspects: Vec<usize> = Vec::new();
+        if let Ok(dir) = std::fs::read_dir(opts.out.join("current")) {
+            for e in dir.flatten() {
+                if let Ok(t) = std::fs::read_to_string(e.path()) {
+                    if let Ok(i) = t.trim().parse::<usize>() {
+                        suspects.push(i);
+                    }
+                }
+            }
+        }
+        suspects.sort();
+        suspects.dedup();
+        if suspects.is_empty() {
+            eprintln!("c10: the search process died ({status}) and left no trace of what it was running");
+            return 3;
+        }
+        for i in suspects {
+            let alone = opts.out.join(format!("alone-{i}"));
+            let mut c = std::process::Command::new(&exe);
+            c.arg("c10").arg("--tier").arg(if opts.thorough() { "thorough" } else { "quick" }).arg("--seed").arg(opts.seed.to_string());
+            c.arg("--out").arg(&alone).arg("--child").arg("--only-index").arg(i.to_string());
+            let out = c.output().expect("spawn single child");
+            let source = std::fs::read_to_string(alone.join("input.txt")).unwrap_or_default();
+            if !out.status.success() {
+                let err = String::from_utf8_lossy(&out.stderr);
+                let why = err.lines().filter(|l| l.contains("overflowed") || l.contains("fatal") || l.contains("panicked")).take(2).collect::<Vec<_>>().join(" | ");
+                crashers.push((i, format!("{} {why}", out.status), source));
+            } else {
+                unconfirmed += 1;
+            }
+            let _ = std::fs::remove_dir_all(&alone);
+            skip.push(i);
+        }
+    }
+    // merge the crashes into the report of the last (successful) child
+    let meta_path = opts.out.join("meta.json");
+    let Ok(text) = std::fs::read_to_string(&meta_path) else {
+        eprintln!("c10: no report from the search process");
+        return 3;
+    };
+    let mut meta: serde_json::Value = serde_json::from_str(&text).expect("meta.json");
+    if !crashers.is_empty() || unconfirmed > 0 {
+        // the input text: regenerate by asking a child to print it is overkill; the index and the seed
+        // identify it, and the single-input child is the replay
+        let viol = meta["violations"].as_array_mut().expect("violations");
+        for (i, why, source) in &crashers {
+            viol.push(serde_json::json!({"kind": "c10-process-crash", "detail": {"input_index": i, "status": why, "source": source,
+                "replay": format!("zv-harness c10 --tier {} --seed {} --out DIR --child --only-index {i}", if opts.thorough() { "thorough" } else { "quick" }, opts.seed)}}));
+        }
+        meta["counters"]["process_crashes_confirmed"] = serde_json::json!(crashers.len());
+        meta["counters"]["process_crash_suspects_not_reproduced_alone"] = serde_json::json!(unconfirmed);
+        std::fs::write(&meta_path, serde_json::to_string_pretty(&meta).unwrap()).expect("write meta");
     }
     0
 }
